@@ -174,6 +174,43 @@ fn allocated_from_bytes(d: &[u8]) -> Vec<u32> {
     (0..num_pages as u32).filter(|p| !free[*p as usize]).collect()
 }
 
+/// for each order of a serialized `BuddyAllocator`: does it hold a free block of that order?
+fn free_orders_from_bytes(d: &[u8]) -> Vec<bool> {
+    let max_order = d[0] as usize;
+    let mut start = 8 + 4 * (max_order + 1);
+    let mut v = vec![];
+    for order in 0..=max_order {
+        let end = rd_u32(d, 8 + 4 * order);
+        let bm = &d[start..end];
+        let height = rd_u32(bm, 0);
+        let leaf_start = if height == 1 { 4 + 4 * height } else { rd_u32(bm, 4 + 4 * (height - 2)) };
+        let len = rd_u32(bm, leaf_start);
+        v.push((0..len).any(|i| bm[leaf_start + 4 + i / 8] & (1 << (i % 8)) == 0));
+        start = end;
+    }
+    v
+}
+
+/// bit `region` of the tracker bitmap of `order` in a serialized `RegionTracker` (set = "full")
+fn tracker_bit(d: &[u8], order: usize, region: usize) -> Option<bool> {
+    let orders = rd_u32(d, 0);
+    if order >= orders {
+        return None;
+    }
+    let mut start = 4 + 4 * orders;
+    for o in 0..order {
+        start += rd_u32(d, 4 + 4 * o);
+    }
+    let bm = &d[start..start + rd_u32(d, 4 + 4 * order)];
+    let height = rd_u32(bm, 0);
+    let leaf_start = if height == 1 { 4 + 4 * height } else { rd_u32(bm, 4 + 4 * (height - 2)) };
+    let len = rd_u32(bm, leaf_start);
+    if region >= len {
+        return None;
+    }
+    Some(bm[leaf_start + 4 + region / 8] & (1 << (region % 8)) != 0)
+}
+
 pub struct PageState {
     pub alloc: Vec<u64>,
     pub data: Vec<u64>,
@@ -379,7 +416,30 @@ impl World {
         if !missing.is_empty() {
             out.oracle_fail(format!("pinned-page-free|after {after}: durable system tree reaches free pages {}", ranges(&missing[..missing.len().min(40)])));
         }
-        // region tracker never hides free space (C14, observed on the real database)
+        // C20: the file is never shorter than a page that is still in use
+        let file_len = self.backend.data.lock().unwrap().len() as u64;
+        if let Some(maxp) = owner.keys().next_back() {
+            let end = (maxp + 2) * u64::from(snap.mem.page_size);
+            if end > file_len {
+                out.oracle_fail(format!("page-beyond-eof|after {after}: page {maxp} is in use and ends at byte {end}, but the storage is only {file_len} bytes long"));
+            }
+        }
+        if snap.mem.layout_len != file_len {
+            out.oracle_fail(format!("layout-length|after {after}: in-memory layout length {} differs from the storage length {file_len}", snap.mem.layout_len));
+        }
+        // C14: a region that contains a suitable free block is never reported full by the tracker
+        for (r, bytes) in snap.mem.region_allocators.iter().enumerate() {
+            let free = free_orders_from_bytes(bytes);
+            if let Some(hfo) = free.iter().rposition(|x| *x) {
+                for o in 0..=hfo {
+                    if tracker_bit(&snap.mem.region_tracker, o, r) == Some(true) {
+                        out.oracle_fail(format!("tracker-hides-space|after {after}: region {r} has a free block of order {hfo} but the region tracker reports it full for order {o}"));
+                        break;
+                    }
+                }
+            }
+        }
+        out.count("tracker_checks");
         let rec = |m: &BTreeMap<u64, Vec<u64>>| -> String {
             if m.is_empty() {
                 "-".into()
